@@ -631,6 +631,11 @@ def _apply_event(phi, xx, pop_ids, event, interval, sample_sizes, demes_present)
             phi= _split_phi(phi, xx, pop_ids, parent, new_pop_ids)
             # When dadi splits a population, one of the new children is always the last in the phi matrix
             pop_ids = new_pop_ids
+            # any further children are split off the first child in turn
+            for child in children[2:]:
+                new_pop_ids = pop_ids + [child]
+                phi = _split_phi(phi, xx, pop_ids, children[0], new_pop_ids)
+                pop_ids = new_pop_ids
     elif e == "branch":
         # branch is a split, but keep the pop_id of parent
         parent = event[1]
